@@ -19,6 +19,9 @@ func main() {
 	steps := fs.Int("steps", 400, "adversary steps per run")
 	heights := fs.Int("heights", 3, "heights to decide (timed drivers)")
 	dyn := fs.Bool("dyn", false, "sync driver: dynamic block time extension in every run")
+	full := fs.Bool("full", false, "quorum driver: every validator count")
+	lo := fs.Int("lo", 1, "quorum driver: first validator count")
+	hi := fs.Int("hi", 65535, "quorum driver: last validator count")
 	out := fs.String("out", "/dev/stdout", "ndjson trace file")
 	_ = fs.Parse(os.Args[2:])
 	w := NewTraceWriter(*out)
@@ -36,6 +39,12 @@ func main() {
 		for r := *from; r < *from+*runs; r++ {
 			runFaults(w, *seed, r, *heights)
 		}
+	case "proposal":
+		for r := *from; r < *from+*runs; r++ {
+			runProposal(w, *seed, r, *heights)
+		}
+	case "quorum":
+		runQuorum(w, *full, *lo, *hi)
 	case "open":
 		for r := *from; r < *from+*runs; r++ {
 			runOpen(w, *seed, r, *steps)
